@@ -78,19 +78,34 @@ def probe_texts(r, n, thorough_slice=None):
     return out
 
 
-def make_doc(r, texts):
-    """texts: probe texts for body rows (conversion on, except odd rows of column c1 which are off)."""
+def make_doc(r, texts, pos=None):
+    """texts: probe texts for body rows (conversion on, except odd rows of column c1 which are off).
+    pos: position (0 or 1) of a page_by column that is removed from the display and whose own text_convert flag differs from the
+    neighbour that takes its place; per-cell flags must follow their cells."""
     rows = []
     probes = []
     conv = []
+    cols = ["id", "c1"]
+    if pos is not None:
+        cols.insert(pos, "g0")
     for i, t in enumerate(texts):
         plain_off = "".join(ch for ch in t if ch not in "\\{}\n") or "x"
-        rows.append([f"#{i}#" + t, f"%{i}%" + plain_off])
+        row = [f"#{i}#" + t, f"%{i}%" + plain_off]
+        flags = [True, False]
+        if pos is not None:
+            row.insert(pos, "@G")
+            flags.insert(pos, pos == 1)     # differs from the column that moves into its place
+        rows.append(row)
         probes.append((f"#{i}#", t, True))
         probes.append((f"%{i}%", plain_off, False))
-        conv.append([True, False])
+        conv.append(flags)
+    if pos is not None and r.random() < 0.5 and conv:
+        conv = [conv[0]]                    # the per-column form
     extra = r.choice(texts) if texts else "x"
-    spec = {"df": {"cols": ["id", "c1"], "rows": rows}, "body": {"text_convert": conv if conv else True},
+    body = {"text_convert": conv if conv else True}
+    if pos is not None:
+        body["page_by"] = ["g0"]
+    spec = {"df": {"cols": cols, "rows": rows}, "body": body,
             "page": {"nrow": 200}, "kind": "single", "strategy": "probe",
             "title": {"text": "T" + extra}, "footnote": {"text": "F" + extra, "as_table": r.random() < 0.5},
             "source": {"text": "R" + extra}, "headers": [{"text": ["H" + extra, "HH"]}],
@@ -146,7 +161,7 @@ def run(ctx):
                 texts.extend(templates(r, k))
             texts += SPECIALS * 3 + probe_texts(r, 400) + prefix_pairs() + follower_texts()
         for i in range(0, len(texts), 40):
-            docs.append((f"d{i}", make_doc(r, texts[i:i + 40])))
+            docs.append((f"d{i}", make_doc(r, texts[i:i + 40], [None, 0, 1][(i // 40) % 3])))
     failures = []
     stats = collections.Counter()
     probe_stats = collections.Counter()
